@@ -344,6 +344,52 @@ def h_adaptive(h, k):
                    s[c] if k > 1 else s[()])
 
 
+def h_midcall(h, k, upper):
+    """one call with points on both sides of the table while an adaptive update is due: the direct
+    evaluation of the lower points (lower mode NONE) triggers the update in the MIDDLE of the call and
+    the table grows past a point that was above it when the call was made.  Every element of the
+    answer is still produced by the mode of the side it was on at call time: ERROR raises, the other
+    modes write a value (none is left unwritten)."""
+    Fn, Fs = make_function(h, k)
+    f = Fn(bUseAdaptiveInterpolation=True, initialInterpolationPointCount=5, returnValueCount=k)
+    xs, vals = make_table(h, f, 3, k)
+    f._evaluationsUntilAdaptiveUpdate = 2
+    far = h.real("far", -9, 9, default=7.0)
+    a = h.real("a", -9, 9, default=-4.0)
+    c = h.real("c", -9, 9, default=5.5)
+    h.assume(AND(lt(a, xs[0]), gt(c, xs[-1]), lt(c, far)), "a below the table, c above it, an earlier direct evaluation beyond c")
+    f(far, bUseInterpolatedValues=False)     # pending data for the next adaptive update
+    h.prove("one pending evaluation, table unchanged", Cond(b=f._directEvaluateCount == 1 and f.numPoints() == 3))
+    f.setExtrapolationType(MODES[0], MODES[upper])
+    X = np.array([a, c], dtype=object if h.symbolic else float)
+    try:
+        r = np.asarray(f(X))
+        raised = False
+    except ValueError:
+        raised = True
+    h.prove("upper mode ERROR: a point above the table at call time raises", Cond(b=raised == (MODES[upper] == EX.ERROR)))
+    if raised:
+        return
+    h.prove("shape", Cond(b=r.shape == ((2, k) if k > 1 else (2,))))
+    flat = [r[1, cc] for cc in range(k)] if k > 1 else [r[1]]
+    ok = all((v is not None) and (isinstance(v, Sym) or (isinstance(v, (int, float, np.floating)) and np.isfinite(v))) for v in flat)
+    h.prove("the element above the table is written (a value prescribed by the upper mode, not left over memory)", Cond(b=bool(ok)))
+    if ok and MODES[upper] in (EX.CONSTANT, EX.FUNCTION):
+        # the table current when the upper side is served (the update has happened by then)
+        at = f.interpolationRangeMax() if MODES[upper] == EX.CONSTANT else c
+        want = np.asarray(f.evaluateInterpolation(np.asarray(at)))
+        for cc in range(k):
+            h.prove_eq(f"upper mode {MODES[upper].name}: the spline of the current table at "
+                       f"{'its upper end' if MODES[upper] == EX.CONSTANT else 'the point'} (component {cc})",
+                       flat[cc], want[cc] if k > 1 else want[()])
+    lowflat = [r[0, cc] for cc in range(k)] if k > 1 else [r[0]]
+    for cc in range(k):
+        h.prove_eq(f"the element below the table is the function itself (component {cc})", lowflat[cc], Fs[cc](a))
+    if ok and MODES[upper] == EX.NONE:
+        for cc in range(k):
+            h.prove_eq(f"upper mode NONE: the function itself (component {cc})", flat[cc], Fs[cc](c))
+
+
 def h_modechange(h, k, seq):
     """mode changes rebuild the spline on the same table; evaluation afterwards follows the
     new modes"""
@@ -466,6 +512,10 @@ HARNESSES = [
     HarnessDef("adaptive-update", h_adaptive, [dict(k=1), dict(k=2)], max_paths=60, timeout_s=30,
                encodes=[InterpolatableFunction._adaptiveInterpolationUpdate,
                         InterpolatableFunction.scheduleForInterpolation], random_validation=1),
+    HarnessDef("update-in-mid-call", h_midcall, [dict(k=1, upper=u) for u in (1, 2, 3)] + [dict(k=2, upper=2)],
+               [dict(k=k, upper=u) for k in (1, 2) for u in (0, 1, 2, 3)], max_paths=200, timeout_s=30,
+               encodes=[InterpolatableFunction._evaluateOutOfBounds, InterpolatableFunction.evaluate,
+                        InterpolatableFunction._adaptiveInterpolationUpdate], random_validation=1),
     HarnessDef("mode-changes", h_modechange, _MQ, _MQ, max_paths=40, timeout_s=30,
                encodes=[InterpolatableFunction.setExtrapolationType], random_validation=1),
     HarnessDef("file-round-trip", h_file, [dict(k=1), dict(k=2)], [dict(k=k) for k in (1, 2, 3, 4)],
